@@ -186,6 +186,11 @@ func Run(req *fnv1.RunFunctionRequest) *fnv1.RunFunctionResponse {
 			for _, name := range strList(v) {
 				delete(rsp.Desired.Resources, name)
 			}
+		case "blank": // keeps the entry but strips its body (no apiVersion, no kind): only "ready" remains
+			if r, ok := rsp.Desired.Resources[str(op["name"])]; ok {
+				r.Resource = &structpb.Struct{}
+				r.Ready = fnv1.Ready_READY_TRUE
+			}
 		case "dropFixed":
 			delete(rsp.Desired.Resources, str(op["name"]))
 		case "label":
